@@ -14,7 +14,8 @@ EXPLANATION = (
     "Decides these necessary conditions, not set equality of answers over all query mixes."
     " (g,h) The answer builders use rename-resolved names and the answering service is found by scanning my_services for resolve_name(key) == question name, never by the registered key."
     " (j) In add_interface every announce attempt is followed on all paths by a status write for that interface. (k) The known-answer formula (shared with C10a)."
-    " (l) Before its question loop handle_query returns only for an unknown socket / registry / interface. (m) No byte-wise string test on the question name stands in front of all answer sites. (n) add_additional_answer leaves a record out only behind a full-record comparison.")
+    " (l) Before its question loop handle_query returns only for an unknown socket / registry / interface. (m) No byte-wise string test on the question name stands in front of all answer sites. (n) add_additional_answer leaves a record out only behind a full-record comparison."
+    " (o) as C04l. (p) After the question loop only answers_count() == 0 goes around send_dns_outgoing. (q) A name_changes entry keyed by a host name is removed only behind a scan of the other services.")
 UNDECIDED = ["'exactly the records that match each question' as a set equality over all query mixes",
              "subtype-question / answer-name relation", "interplay with known answers (C10)"]
 
@@ -320,6 +321,7 @@ def run(ctx, P):
     r4.additional_dedupe_compares_data(ctx, P, "C06n")
     r4.every_packet_dispatched(ctx, P, "C06o")
     r4.collected_answers_are_sent(ctx, P, "C06p")
+    r4.shared_host_rename_outlives_one_service(ctx, P, "C06q")
     f5.check_map_key_consistency(ctx, P, "C06i.F5.name-changes-keys", "name_changes", "DnsRegistry")
     f4.check_service_selected_by_resolved_name(ctx, P, "C06h")
     clause_g(ctx, P)
